@@ -15,14 +15,14 @@ REPO = os.environ.get('VERIF_REPO', '/repo')
 SWEEPS = {
     'C01': [['stream', '2']],
     'C02': [['stream', '1']],
-    'C04': [['events']],
+    'C04': [['events', '1']],
     'C05': [['words']],
     'C06': [['bits']],
-    'C07': [['stream', '2'], ['stream', '1']],
-    'C08': [['words'], ['bits'], ['events'], ['total'], ['soak'], ['keyboard', '2'], ['keyboard', '1'], ['stream', '2'], ['stream', '1']],
-    'C14': [['events']],
+    'C07': [['resync', '2'], ['resync', '1']],
+    'C08': [['words'], ['bits'], ['events', '3'], ['total'], ['soak'], ['keyboard', '2'], ['keyboard', '1'], ['stream', '2'], ['stream', '1']],
+    'C14': [['events', '2']],
     'C18': [['keyboard', '2'], ['keyboard', '1'], ['bits']],
-    'C19': [['stream', '2'], ['stream', '1']],
+    'C19': [['pairing', '2'], ['pairing', '1']],
 }
 CELL_PROPS = ('C01', 'C02', 'C03', 'C09', 'C10', 'C11', 'C12', 'C13', 'C15', 'C16', 'C17', 'C19')
 
